@@ -441,6 +441,10 @@ def name_value(ip, v, name, parent):
     if isinstance(v, Obj):
         if not v.named:
             v.leaf, v.parent, v.named = name, parent, True
+            il = getattr(v, 'items_list', None)
+            if il is not None:
+                for i, x in enumerate(il):
+                    name_value(ip, x, '%s[%d]' % (name, i), parent)
     elif isinstance(v, E) and v.op == 'sig':
         si = v.args[0]
         if si.kind == 'signal' and not getattr(si, '_named', False):
